@@ -236,6 +236,44 @@ def check(ctx: Ctx) -> None:
     label_validation_rule(ctx, model, "R20.4")
     identifier_forwarding_rule(ctx, model, "R20.4")
 
+    # ---------------- R20.5 both exporters interpreted on every topology up to a bound -------------
+    ctx.rule("R20.5", "bounded-exhaustive interpretation of to_circuitikz and to_drawing (their AST, over stand-in circuits of every topology up to the bound): no raise, one begin/end frame, balanced push/pop, one component per element named <symbol>_<label or identifier>")
+    from . import _c20_layout as LAY
+    general, wf = (4, 7) if ctx.tier == "quick" else (5, 8)
+    layout_done = True
+    try:
+        rt = LAY.run(ctx, model, general, wf)
+        rd = LAY.run_drawing(ctx, model, general, wf)
+    except AnalysisError as e:
+        layout_done = False
+        ctx.note(f"R20.5: the exporters could not be interpreted ({e}); the shape rules of R20.1/R20.3/R20.4 alone decide")
+    if layout_done:
+        ctx.trusted.append("sa/checks/_c20_layout.py: stand-ins for Series/Parallel/Element/Circuit (children, iteration, contains(top_level), identifiers, symbol, label) and for the schemdraw recorder")
+        ctx.extra_cov["layout_topologies"] = {"to_circuitikz": rt["n"], "to_drawing": rd["n"], "bounds": {"all shapes up to nodes": general, "shapes the parser's rules allow up to nodes": wf}}
+        tzf, sdf = model.fi(TIKZ, "to_circuitikz"), model.fi(SCHEM, "to_drawing")
+        for who, fi_, mod_, res, small_key, small_txt, others in (
+                ("to_circuitikz", tzf, TIKZ, rt, "raises_small", "a parallel connection with fewer than two children", ("framing", "components", "naming")),
+                ("to_drawing", sdf, SCHEM, rd, "raises_empty", "an empty connection inside a parallel connection", ("stack", "components", "naming"))):
+            ctx.instance("R20.5", f"{who}: {res['n']} topologies interpreted")
+            if res[small_key]:
+                d_, m_ = res[small_key][0]
+                ctx.violation("R20.5", f"{who}:{'parallel-with-fewer-than-two-paths' if who == 'to_circuitikz' else 'empty-connection'}", mod_, fi_.node,
+                              f"{who} raises for circuits holding {small_txt} ({len(res[small_key])} of the interpreted topologies, e.g. {d_}: {m_}); such circuits can only be built through the API and simulate fine")
+            else:
+                ctx.ok()
+            if res["raises_other"]:
+                d_, m_ = res["raises_other"][0]
+                ctx.violation("R20.5", f"{who}:not-total", mod_, fi_.node,
+                              f"{who} raises for {len(res['raises_other'])} topologies in which every parallel connection has at least two children and no connection is empty, e.g. {d_}: {m_}")
+            else:
+                ctx.ok()
+            for k_ in others:
+                if res[k_]:
+                    d_, m_ = res[k_][0]
+                    ctx.violation("R20.5", f"{who}:{k_}", mod_, fi_.node, f"{who}: {m_} for {len(res[k_])} topologies, e.g. {d_}")
+                else:
+                    ctx.ok()
+
     # ---------------- R20.3 ---------------------------------------------------------
     tz = model.fi(TIKZ, "to_circuitikz")
     ctx.instance("R20.3", "circuitikz framing")
